@@ -308,6 +308,14 @@ def o_reject_db2(sim, op, spec, out):
     sim.check(ok, spec["id"], {"why": "other_database", "api": _api(op), "got": out[0] if out[0] != "exc" else type(out[1]).__name__}, op["i"], lambda: "%s on the second database must be rejected, got %s %r" % (op["k"], out[0], out[1]))
 
 
+def o_twice_same(sim, op, spec, out):
+    """C15: a per-object memo is a cache too - the same question to the same object answers the same."""
+    if out[0] != "ok" or not (isinstance(out[1], list) and len(out[1]) == 2):
+        return
+    a, b = out[1]
+    sim.check(a == b, spec["id"], {"query": op["k"][:60], "after": "same_question_same_object"}, op["i"], lambda: "%s: first %r, then %r" % (op["k"], a, b))
+
+
 def _both_empty_lists(x, y):
     import barril.units as u
 
@@ -561,6 +569,7 @@ ORACLES = {
     "raises_any": o_raises_any,
     "reject": o_reject,
     "reject_db2": o_reject_db2,
+    "twice_same": o_twice_same,
     "changing_index": o_changing_index,
     "index_as_scalar": o_index_as_scalar,
     "curve_set": o_curve_set,
